@@ -107,6 +107,7 @@ def check(prop, tier, update_baseline=False, only=None, procs=16):
     crashes = [r for r in results if r.get("crash")]
     total = proved = 0
     refuted, unknown, undecided, vac = [], [], [], []
+    not_covered = []
     by_kind, by_backend = {}, {}
     solver_s = 0.0
     slow = []
@@ -121,6 +122,11 @@ def check(prop, tier, update_baseline=False, only=None, procs=16):
             f = functions.setdefault(r["target"], {"cases": 0, "paths": 0, "hash": r.get("func_hash"), "lines": r.get("lines")})
             f["cases"] += 1
             f["paths"] += r["paths"]
+        ctr0 = reg.get(r["target"])
+        best_effort = ctr0 is not None and ctr0.best_effort
+        if best_effort and r["undecided"]:
+            not_covered.append(f"{r['target']}[{r['case']}]: {r['undecided'][0][:160]}")
+            continue          # nothing about this function is claimed on this run
         for u in r["undecided"]:
             undecided.append(f"{r['target']}[{r['case']}]: {u}")
         canary_ok = False
@@ -154,7 +160,9 @@ def check(prop, tier, update_baseline=False, only=None, procs=16):
         if ctr is not None and ctr.expect.get(r["case"]) == "raise":
             expect_raise = True
         if r["kind"] == "function" and not r["undecided"]:
-            if r["normal_paths"] == 0 and r["raise_paths"] == 0:
+            if best_effort and r["normal_paths"] == 0 and not expect_raise:
+                not_covered.append(f"{r['target']}[{r['case']}]: every path raises with the generated arguments")
+            elif r["normal_paths"] == 0 and r["raise_paths"] == 0:
                 vac.append(f"{r['target']}[{r['case']}]: no live path")
             if r["normal_paths"] > 0 and not canary_ok:
                 vac.append(f"{r['target']}[{r['case']}]: canary postcondition was not refuted (vacuous hypotheses?)")
@@ -285,7 +293,8 @@ def check(prop, tier, update_baseline=False, only=None, procs=16):
             "jobs": len(tasks), "obligations_by_kind": by_kind, "discharged_by_backend": by_backend,
             "solver_seconds_total": round(solver_s, 2), "slowest": [{"s": s, "obligation": k} for s, k in slow[:5]],
             "refuted": [k for (_, _, k) in refuted], "unknown": [k for (_, _, k) in unknown][:50],
-            "undecided": undecided[:50], "vacuity_failures": vac, "baseline_missing": missing[:50],
+            "undecided": undecided[:50], "vacuity_failures": vac,
+            "best_effort_not_covered": {"count": len(not_covered), "items": not_covered[:200]}, "baseline_missing": missing[:50],
             "known_findings_matched": known_hit,
             "bounded": bounded if bounded is not None else {"note": "no bounded tier for this property"},
             "samples": samples,
@@ -313,6 +322,8 @@ def check(prop, tier, update_baseline=False, only=None, procs=16):
         print("MISSING obligation that was proved on the baseline tree:", m)
     if bounded and bounded.get("error"):
         print("BOUNDED-TIER ERROR", bounded["error"])
+    if not_covered:
+        print(f"best-effort jobs not covered on this run: {len(not_covered)} (listed in the evidence file)")
     print(f"{prop}: {proved}/{total} obligations discharged, {len(functions)} functions under contract, {len(tasks)} jobs, "
           f"bounded cases {bounded.get('cases') if bounded else 0}, {wall:.1f}s, exit {status}")
     return status
